@@ -17,6 +17,8 @@ ANCHORS = ["BasisFunction.speval_matrix", "BasisFunction.horner_method", "Immuta
            "eval_spline_nodes", "eval_rational_nodes", "Curve.eval", "Curve.__eval"]
 ASSUMPTIONS = ["float / numpy / int-knot classes are judged to relative 1e-9 on well-conditioned inputs only",
                "weights positive with max/min <= 45"]
+ENUMERATED = {"quick": (300, "all 300 multiplicity patterns of degree <= 4 with <= 3 interior knots (one knot-value set / class each)"),
+              "thorough": (3600, "all 300 multiplicity patterns of degree <= 4 with <= 3 interior knots x 3 knot-value sets x {polynomial, rational} x {Fraction, float}")}
 
 _PATTERNS = None
 
